@@ -27,4 +27,4 @@ ASSUMPTIONS = []
 EXPLANATION = ""
 CLAIMED = True
 LEVEL_TEXT = "Bounded model checking of the real decoders on fully symbolic buffers of every length up to the tier bound: ntske cookie decoders and Decrypt, ntske.ReadData (record streams <= 12 bytes), nts.DecodePacket, ProcessRequest/authenticate (incl. the walk over decrypted fields sealed by the real encoder). The obligations are the engine's built-in ones: no reachable panic (index, slice bounds, nil, explicit panic, AEAD nonce-length panic) and every loop terminates within its unwinding bound (an unwinding obligation that is satisfiable IS the hang and is replayed natively under a time limit)."
-LEVEL_NOTE = "buffers: cookies <= 16 (quick) / 40 bytes, NTS datagrams <= 80/88 (quick) bytes, plaintext walks 28/36/60 bytes; ideal AEAD; NOT covered by a harness yet: the socket loops themselves (runIPServer, runSCIONServer, CSPTP listener/client, NTS-KE server, SCION forwarder), udp.TimestampFromOOBData, scion auth option parsing, gopacket/slayers/quic-go internals."
+LEVEL_NOTE = "buffers: cookies <= 16 (quick) / 40 bytes, NTS datagrams <= 80/88 (quick) bytes, plaintext walks 28/36/60 bytes; ideal AEAD; the IP listener loop is exercised by C09's and C11's listener harnesses (datagrams <= 56 bytes and one authenticated request); NOT covered: runSCIONServer, CSPTP listener/client, NTS-KE server, SCION forwarder, udp.TimestampFromOOBData, scion auth option parsing, gopacket/slayers/quic-go internals."
